@@ -1,6 +1,7 @@
 (* clean <split> <hexreq> <u1> <u2>            -> "<hexresp> <path,path|->"      (u = o|n|f)
    cmds <hexstream>                            -> "d:messid:sender:recip;..." (hex fields) | "-"
    docmd <nspawn> <used list|-> <fkind a|n|w|g> <delnum> <hexmessid> <hexrecip> -> "E d v" | "O d path v" | "S d path"
+   lrep <crashed 0|1> <exitcode> <hex child output> -> hex of lspawn_report
    reports <hexstream>                         -> "hex,hex,..." | "-"
    delrun <conc> <used list|-> <dying list|-> <hexstream> -> events "I" | "R<d>:<K|Z|D|M>:<texthex>" joined by ' ' *)
 let ures = function "o" -> UOk | "n" -> UNoent | _ -> UFail
@@ -25,6 +26,7 @@ let () = iter_lines (fun line ->
        | SErr (d, v) -> Printf.sprintf "E %d %c" (int_of_n d) (Char.chr (int_of_n v))
        | SOpenErr (d, p, v) -> Printf.sprintf "O %d %s %c" (int_of_n d) (hex_of_bytes p) (Char.chr (int_of_n v))
        | SSpawn (d, p) -> Printf.sprintf "S %d %s" (int_of_n d) (hex_of_bytes p))
+    | ["lrep"; c; e; h] -> hex_of_bytes (lspawn_report (int_of_string c <> 0) (n_of_int (int_of_string e)) (bytes_of_hex h))
     | ["reports"; s] -> let rs = reports (bytes_of_hex s) in if rs = [] then "-" else String.concat "," (List.map hex_of_bytes rs)
     | ["delrun"; conc; used; dying; s] ->
       let dy = ilist dying in
